@@ -15,7 +15,7 @@ EXPL = ("Decides the history clause: typestate Zero/Unknown over the 64xu64 occu
 
 
 def run(ctx):
-    cfgs = ["rel", "unchecked"] if ctx.tier == "quick" else ["rel", "dbg", "unsafe", "unchecked", "nodef"]
+    cfgs = ["rel", "unchecked", "unsafe"] if ctx.tier == "quick" else ["rel", "dbg", "unsafe", "unchecked", "nodef"]
     ctx.progs(cfgs)  # build all configurations in parallel
     for c in cfgs:
         prog = ctx.prog(c)
